@@ -19,6 +19,14 @@ using namespace symt;
 
 int main(int argc, char** argv) {
 #if CFG == 0
+  // unProject(project(p)) = p under both depth conventions
+#define PUNP(SUF, PS) add_prop("p_unproject" #SUF, 7, 2e-2, 1e-7, [](auto const* x) { using T = TY(x); auto p = ldv<3, T>(x); auto ax = ldv<3, T>(x + 3); \
+    if (!(glm::length(ax) > T(0.3))) return T(-1); \
+    auto model = glm::translate(glm::mat<4, 4, T, glm::defaultp>(T(1)), glm::vec<3, T, glm::defaultp>(T(0), T(0), T(-6))) * glm::rotate(glm::mat<4, 4, T, glm::defaultp>(T(1)), x[6], ax); \
+    auto proj = glm::perspectiveRH##SUF(T(1), T(1.3), T(0.5), T(30)); glm::vec<4, T, glm::defaultp> vp(T(0), T(0), T(640), T(480)); \
+    auto w = glm::project##PS(p, model, proj, vp); auto b = glm::unProject##PS(w, model, proj, vp); \
+    return std::max(std::abs(b.x - p.x), std::max(std::abs(b.y - p.y), std::abs(b.z - p.z))); });
+  PUNP(_NO, NO) PUNP(_ZO, ZO)
 #define REG(S, H, D) \
   add_unit(nm("ortho", {H, D}), 6, 16, [](auto const* x, auto* o) { stm(o, glm::ortho##S(x[0], x[1], x[2], x[3], x[4], x[5])); }); \
   add_unit(nm("frustum", {H, D}), 6, 16, [](auto const* x, auto* o) { stm(o, glm::frustum##S(x[0], x[1], x[2], x[3], x[4], x[5])); }); \
